@@ -1,6 +1,7 @@
 package props
 
 import (
+	"os"
 	"fmt"
 	"math/rand"
 	"sync"
@@ -32,10 +33,14 @@ import (
 // Oracle: Server Handshake and the following Reads return (bounded progress), no panic.
 // ---------------------------------------------------------------------------------
 
-const (
-	c34ServerDeadline = 4 * time.Second
-	c34Limit          = 3 * c34ServerDeadline
-)
+const c34ServerDeadline = 4 * time.Second
+
+var c34Limit = func() time.Duration {
+	if os.Getenv("VERIF_RACE_PASS") == "1" {
+		return 20 * c34ServerDeadline
+	}
+	return 3 * c34ServerDeadline
+}()
 
 func marshalCH(ch *wire.ClientHello, exts []wire.Ext, withExts bool) []byte {
 	body := be16(ch.Version)
